@@ -22,6 +22,7 @@ import (
 	"context"
 	"encoding/base64"
 	"fmt"
+	"math"
 
 	"github.com/cloudwego/dynamicgo/http"
 	"github.com/cloudwego/dynamicgo/internal/json"
@@ -68,6 +69,23 @@ func decodeString(s string, v types.JsonState, end int) (string, error) {
 	return rt.Mem2Str(buf), nil
 }
 
+// float2int converts a JSON number with fraction or exponent to an integer of thrift type t.
+// The result of a Go conversion is implementation-specific when the value is out of range, so follow
+// what the native implementation does on amd64: I64 is converted as 64 bits, the smaller types as 32 bits
+// (then truncated), and a value that doesn't fit gives the smallest integer of that size.
+func float2int(t thrift.Type, v float64) int {
+	if t == thrift.I64 {
+		if v >= -(1<<63) && v < 1<<63 {
+			return int(int64(v))
+		}
+		return math.MinInt64
+	}
+	if v > -(1<<31)-1 && v < 1<<31 {
+		return int(int32(v))
+	}
+	return math.MinInt32
+}
+
 // writeNumber writes a JSON number as a value of thrift type t
 func writeNumber(p *thrift.BinaryProtocol, t thrift.Type, v types.JsonState) error {
 	if t == thrift.DOUBLE {
@@ -79,7 +97,7 @@ func writeNumber(p *thrift.BinaryProtocol, t thrift.Type, v types.JsonState) err
 		if v.Vt == types.V_INTEGER {
 			return p.WriteInt(t, int(v.Iv))
 		}
-		return p.WriteInt(t, int(v.Dv))
+		return p.WriteInt(t, float2int(t, v.Dv))
 	}
 	return newError(meta.ErrDismatchType, "json number can't convert to thrift "+t.String(), nil)
 }
